@@ -40,6 +40,9 @@ def run(ctx):
     run.rule("C06.R4", "own, initially empty section stack per parser; a "
              "fragment cannot end with an open section", floor=2)
     run.rule("C06.R5", "the nested resource is opened under `with`")
+    run.rule("C06.R6", "an %include reads the named resource itself, each "
+             "time: URL from the reference as written, text from opening it",
+             floor=2)
 
     from rules import c05
     c05.defines_origins(ctx, run, "C06.R1")
@@ -166,6 +169,25 @@ def run(ctx):
               "(closed on every exit: C19.R1)",
               "the nested resource is not opened under `with`",
               loc=m.loc(ic, ic.node), nontrivial=False)
+
+
+    # R6: what an %include reads is the named resource, now: the target URL
+    # is the absolute form of the reference as written (no symlink
+    # resolution, which would move the base of the fragment's own relative
+    # references), and the text comes from opening that URL, not from
+    # anything remembered
+    from rules import c18
+    BL = "ZConfig.loader.BaseLoader"
+    nu = m.fn(BL + ".normalizeURL")
+    r = X.compare(P, nu, X.spec_method(P, "ref_loader.py", "normalizeURL",
+                                       BL), rename=c18._rename)
+    _verdict(run, "C06.R6", nu, "include target: absolute path of the "
+             "reference as written -> file URL", r, m)
+    orf = m.fn(BL + ".openResource")
+    r = X.compare(P, orf, X.spec_method(P, "ref_url.py", "openResource", BL),
+                  independent=c18._char_observation)
+    _verdict(run, "C06.R6", orf, "the fragment's text is read from its URL "
+             "on every include", r, m)
 
 
 def _verdict(run, rule, fn, construct, r, m):
